@@ -71,6 +71,13 @@ package service
 //@   ensures C04.len: len(p.historyData) <= old(len(p.historyData)) + len(data)
 //@   ensures C04.sufdata: forall(j, 0, len(data), len(p.historyData) - len(data) + j >= 0 ==> p.historyData[len(p.historyData) - len(data) + j] == old(data[j]))
 //@   ensures C04.sufhist: forall(j, 0, old(len(p.historyData)), len(p.historyData) - len(data) - old(len(p.historyData)) + j >= 0 ==> p.historyData[len(p.historyData) - len(data) - old(len(p.historyData)) + j] == old(p.historyData[j]))
+// nothing is dropped: with no message delivered every byte is still pending; with one message delivered the pending
+// bytes and the message's raw frame account for every byte (the general statement needs a sum over the messages, which
+// the specification language cannot carry across heap updates; for two or more messages only the suffix clauses hold)
+//@   loop 1 invariant C04.keep0: len(msgs) == 0 ==> len(p.historyData) == old(len(p.historyData)) + len(data)
+//@   loop 1 invariant C04.keep1: len(msgs) == 1 ==> len(p.historyData) + len(msgs[0].ExtensionFields.TerminalData) == old(len(p.historyData)) + len(data)
+//@   ensures C04.keep0: err == nil && len(msgs) == 0 ==> len(p.historyData) == old(len(p.historyData)) + len(data)
+//@   ensures C04.keep1: err == nil && len(msgs) == 1 ==> len(p.historyData) + len(msgs[0].ExtensionFields.TerminalData) == old(len(p.historyData)) + len(data)
 //@   precall Decode C04.shape: arg1[0] == 0x7e ==> oneframe(arg1)
 //@   precall newTerminalMessage#2 C04.fast: old(len(p.historyData)) == 0 && sameBytes(arg1, data)
 //@   precall newTerminalMessage#1 C04.piece: len(arg1) == end && forall(k, 0, end, arg1[k] == p.historyData[k])
